@@ -293,19 +293,29 @@ impl IncanLanguageServer {
         let mut result: Vec<(String, Program)> = Vec::new();
         let mut entry_diags: Vec<Diagnostic> = Vec::new();
         let mut seen: HashSet<PathBuf> = HashSet::new();
-        let mut stack: Vec<(PathBuf, PathBuf, Span)> = Vec::new(); // (module_path, base_dir_for_that_module, import_span_in_entry)
+        // (module_path, base_dir_for_that_module, import_span_in_entry, module name as the CLI derives it)
+        let mut stack: Vec<(PathBuf, PathBuf, Span, String)> = Vec::new();
+        // The checker looks a dependency up under its import segments joined by `_` (visibility of
+        // `from a.b import x`), which is how the CLI names modules.
+        fn import_module_name(import: &crate::frontend::ast::ImportDecl) -> Option<String> {
+            match &import.kind {
+                crate::frontend::ast::ImportKind::From { module, .. } => Some(module.segments.join("_")),
+                crate::frontend::ast::ImportKind::Module(p) => Some(p.segments.join("_")),
+                _ => None,
+            }
+        }
 
         // Seed stack with direct imports from the entry AST
         for decl in &ast.declarations {
             if let Declaration::Import(import) = &decl.node {
                 if let Some(dep_path) = resolve_import_path(&entry_base, import) {
                     let base = dep_path.parent().unwrap_or(&entry_base).to_path_buf();
-                    stack.push((dep_path, base, decl.span));
+                    stack.push((dep_path, base, decl.span, import_module_name(import).unwrap_or_default()));
                 }
             }
         }
 
-        while let Some((path, base_dir, import_span)) = stack.pop() {
+        while let Some((path, base_dir, import_span, imported_as)) = stack.pop() {
             let canonical = path.canonicalize().unwrap_or(path.clone());
             if !seen.insert(canonical.clone()) {
                 continue;
@@ -404,16 +414,20 @@ impl IncanLanguageServer {
                 if let Declaration::Import(import) = &decl.node {
                     if let Some(nested_path) = resolve_import_path(&base_dir, import) {
                         let nested_base = nested_path.parent().unwrap_or(&base_dir).to_path_buf();
-                        stack.push((nested_path, nested_base, Span::default()));
+                        stack.push((nested_path, nested_base, Span::default(), import_module_name(import).unwrap_or_default()));
                     }
                 }
             }
 
-            let module_name = canonical
-                .file_stem()
-                .and_then(|s| s.to_str())
-                .unwrap_or("module")
-                .to_string();
+            let module_name = if imported_as.is_empty() {
+                canonical
+                    .file_stem()
+                    .and_then(|s| s.to_str())
+                    .unwrap_or("module")
+                    .to_string()
+            } else {
+                imported_as
+            };
             result.push((module_name, dep_ast));
         }
 
